@@ -62,6 +62,8 @@ type Store struct {
 	holdAt  int
 	held    bool
 	holding bool
+	// HoldSurvives: the held call is only DELAYED (a slow storage write); the incarnation lives on after it.
+	HoldSurvives bool
 }
 
 func NewStore() *Store { return &Store{data: map[string][]byte{}} }
@@ -213,13 +215,24 @@ func (s *Store) apply(inc int, ops []*storage.Operation) error {
 			if s.calls != seen {
 				seen, quietSince = s.calls, time.Now()
 			}
+			if s.HoldSurvives {
+				// a slow write: it lands once two later storage calls have been made by others (they overtook it), or after
+				// 250 ms when nobody can (the queue's mutex is held across the write)
+				if (s.calls >= myN+2 && time.Since(quietSince) > 10*time.Millisecond) || time.Since(start) > 250*time.Millisecond {
+					break
+				}
+				continue
+			}
 			if time.Since(quietSince) > 40*time.Millisecond || time.Since(start) > 600*time.Millisecond {
 				break
 			}
 		}
 		s.holding = false
-		dieAfter = true
+		dieAfter = !s.HoldSurvives
 		defer func() {
+			if s.HoldSurvives {
+				return
+			}
 			// the incarnation dies right after the held call has taken effect
 			if !s.dead {
 				s.dead = true
